@@ -77,6 +77,25 @@ PROPS = {
         "note": "partial: the library algorithms are not modelled; that they use only the reflection interface on pulsar types (ProtoMethods Merge/CheckInitialized are nil) is read off proto_message.go and exercised by the differential run",
         "design": "DESIGN.md §3 C10",
     },
+    "C12": {
+        "engines": [GEN, dict(CODEC, args=SMALL), dict(DECODE, args=SMALL), dict(REFLECT, args={"quick": ["-n", "40"], "thorough": ["-n", "600"]})],
+        "accept": ["C01", "C02", "C03", "C04", "C05", "C06", "C07", "C08", "C09", "C10", "C14"],
+        "text": "Partial. Proved (Lean 4): the codec / reflection theorems C01-C11, C14 are already stated for every well-formed schema (the `programs` quantifier), and Properties/C12.lean proves the generator's decision logic (unknown feature => error, known features accepted, proto2 / unrequested files produce nothing, features=protoc alone emits nothing, reserved field and oneof names are rewritten to non-colliding ones over the table regenerated from main.go). That the emitted text is Go that compiles cannot be a theorem about a text template engine: on every run the working-tree plugin is driven on the schema corpus (every kind x shape, tag-width boundaries, packed and [packed=false], all map key kinds, name collisions with protoreflect.Message methods and generated identifiers, imports across three Go packages, well-known types, recursion, random schemas), the answers are compiled, and the codec / decoder / reflection engines run on the emitted types; parameter strings and negative requests are exercised.",
+        "note": "partial: compile step and schema sampling are a correspondence check, not a proof; the supported subset excludes groups and proto3 optional (as the property says)",
+        "design": "DESIGN.md §3 C12",
+    },
+    "C13": {
+        "engines": [GEN],
+        "text": "Partial. Proved (Lean 4, Properties/C13.lean): with every Go map iteration of the generator as an explicit permutation parameter, the feature list, the message index found by scanning a map and the per-file emit decision do not depend on iteration order or on the co-generated files. Absence of other nondeterminism sources cannot follow from a model of the known ones: on every run each corpus request is repeated in fresh processes and compared byte for byte, multi-file requests (three Go packages + the matrix) are run with permuted and sub-setted file_to_generate and compared per file with the single-file answers, and the emitted text is scanned for paths, dates and the hostname.",
+        "note": "partial: process-level determinism is sampled (6 / 48 repetitions, 8 / 40 permutations); the model covers the map iterations that exist in generator code today",
+        "design": "DESIGN.md §3 C13",
+    },
+    "C19": {
+        "engines": [DESC],
+        "text": "Partial. Proved (Lean 4, Properties/C19.lean): the flattened message order is depth-first parent-first, the message index is the position in it, and evaluating the generated Messages().ByName(..) parent chain resolves to the message itself. protoimpl.TypeBuilder, the registries and prototext are trusted protobuf-go code: on every run, for every generated package (corpus and checked-in) the registered file descriptor is compared with the request's (options included), every message/enum is looked up in the global registries and mapped back to its Go type, descriptor identity and Type/New/Zero are checked, getters are compared with Get on random values and nil receivers, Reset, String -> prototext.Unmarshal -> equal, enum String/Number/Descriptor.",
+        "note": "partial: protobuf-go's type builder and registries are outside the model; nested message/enum declarations in corpus schemas are limited to map entries and the checked-in test3 nesting files",
+        "design": "DESIGN.md §3 C19",
+    },
     "C14": {
         "engines": [DECODE, dict(CODEC, args=SMALL)],
         "text": "Lean 4 theorems C14_unknown_step (a record with an undeclared number is appended byte for byte, in arrival order, to that level's unknown set and nothing else changes), C14_known_never_unknown, C14_reencode_unknown_last, C14_discard (decoding with DiscardUnknown = decoding without, then erasing every unknown set at every depth), together with C03 (unknown sets equal the reference's). Tied on every run by streams with unknown records of every wire type incl. nested groups injected at every level, both flags, compared through the struct view with the model and with real dynamicpb.",
@@ -137,9 +156,6 @@ REQUIRED = {
 
 NOT_YET = {
     "C01": "check under construction (codec engine runs; round-trip theorem not yet proved)",
-    "C12": "check under construction",
-    "C13": "check under construction",
-    "C19": "check under construction",
 }
 
 
